@@ -242,3 +242,27 @@ macro_rules! ii_wrapper_range_impls {
 
 ii_wrapper_range_impls! {step_kk::range_inclusive_into_inner, }
 ii_wrapper_range_impls! {step_kk::range_inclusive_ref_into_inner, &}
+
+// Verification hooks (feature `__verif`, off by default): read-only views of the
+// private cursor state, so that an external explorer can key states canonically.
+#[cfg(feature = "__verif")]
+macro_rules! __verif_bounds_impls {
+    ($($iter:ident)*) => ($(
+        impl<T: Step> $iter<T> {
+            #[doc(hidden)]
+            pub const fn __verif_bounds(&self) -> (T, T) {
+                (self.start, self.end)
+            }
+        }
+    )*)
+}
+#[cfg(feature = "__verif")]
+__verif_bounds_impls! {RangeIter RangeIterRev RangeInclusiveIter RangeInclusiveIterRev}
+
+#[cfg(feature = "__verif")]
+impl<T: Step> RangeFromIter<T> {
+    #[doc(hidden)]
+    pub const fn __verif_start(&self) -> T {
+        self.start
+    }
+}
